@@ -14,12 +14,14 @@ pub static C15: C15Prop = C15Prop;
 #[derive(PartialEq, Eq, Debug, Clone, Hash)]
 struct Normal {
     results: Vec<Item>,
-    leftover: usize,
+    /// the end-of-input report: None = nothing reported, Some(n) = n leftover bytes reported
+    /// (a report of zero bytes is a report)
+    leftover: Option<usize>,
 }
 
 fn normalise(fe: Fe, obs: &[Obs]) -> Result<Normal, String> {
     let mut results = Vec::new();
-    let mut leftover = 0usize;
+    let mut leftover: Option<usize> = None;
     let mut ended = false;
     let marked = match fe {
         Fe::Decode | Fe::Streaming => mark_final(obs),
@@ -34,7 +36,7 @@ fn normalise(fe: Fe, obs: &[Obs]) -> Result<Normal, String> {
                 results.push(o.item.clone());
             }
             Item::Fin(DErr::Discarded(n)) => {
-                leftover = *n;
+                leftover = Some(*n);
                 ended = true;
             }
             Item::FinNone | Item::End => ended = true,
@@ -42,7 +44,9 @@ fn normalise(fe: Fe, obs: &[Obs]) -> Result<Normal, String> {
                 if ended && *n > 0 {
                     return Err(format!("{} reported IoErr(Eof, {}) after its end-of-input report", fe.name(), n));
                 }
-                leftover = leftover.max(*n);
+                if leftover.is_none() {
+                    leftover = Some(*n);
+                }
                 ended = true;
             }
             other => return Err(format!("{} produced an unexpected item {}", fe.name(), other.short())),
@@ -109,7 +113,7 @@ impl Prop for C15Prop {
                                 violation = Some(Violation::oracle(
                                     "C15.replica-disagreement",
                                     format!(
-                                        "{} reported {} leftover {} but {} reported {} leftover {}",
+                                        "{} reported {} leftover {:?} but {} reported {} leftover {:?}",
                                         rl,
                                         show_items(&rn.results),
                                         rn.leftover,
@@ -129,13 +133,13 @@ impl Prop for C15Prop {
         }
         let (nontrivial, steps) = match &reference {
             Some((_, n)) => {
-                if n.leftover > 0 {
+                if n.leftover.unwrap_or(0) > 0 {
                     st.bump("probe", "leftover>0");
                 }
                 if n.results.len() >= 3 {
                     st.bump("probe", "log>=3");
                 }
-                (n.results.len() >= 2 || n.leftover > 0, (stream.len() * 11) as u64)
+                (n.results.len() >= 2 || n.leftover.is_some(), (stream.len() * 11) as u64)
             }
             None => (false, 0),
         };
